@@ -2245,6 +2245,8 @@ function UnionType:update_fields()
       align = size
     else
       self.is_empty = nil
+      -- like in C, the union size is a multiple of its alignment
+      size = align_forward(size, align)
     end
     self.size = size
     self.bitsize = size * 8
